@@ -27,6 +27,18 @@ CLAIMED.update({
             "ref/fa.py; termination judged by a 400000 line-event budget; sizes <= 7 states"),
 })
 
+CLAIMED.update({
+    "C05": ("matcher vs. Brzozowski-derivative reference on all words up to a bound; simplifier: exact equivalence of derivative DFAs + node count",
+            "generated trees (biased shapes) and all trees with <= 5-7 nodes; differential against an independent denotational reference",
+            "ref/regex.py (derivatives, cross-checked against a Glushkov automaton in the self-test); trees <= ~25 nodes, words <= 8"),
+    "C06": ("regexp_to_nfa / dfa_to_regexp results vs. derivative automaton / reference DFA, exact equivalence by product walk",
+            "generated and exhaustively enumerated expressions and DFAs; language equality decided exactly for all word lengths per instance",
+            "ref/regex.py, ref/fa.py; DFAs <= 5 states; elimination orders sampled through hash seeds and renaming"),
+    "C18": ("model-based call histories (union/concat/star/copy over a growing object pool) vs. reference eps-NFA constructions, exact equivalence after every call",
+            "generated histories of up to 8 (quick) / 20 (thorough) operations; invariant after every step over all objects in the pool",
+            "ref/fa.py; operands share epsilon; default-generator state is set per case to model earlier calls"),
+})
+
 NOT_YET = {
 }
 
